@@ -31,6 +31,24 @@ CLAIMED = {
         "Trusted: the 30-line specification interpreter in harness/mon/c05.go. Total chain <= 63. One observation class is a listed known finding (KF1, exactly 63 handlers).",
         "DESIGN.md section 4 C05",
     ),
+    "C08": (
+        "runtime monitoring: reference state-machine monitor (unset -> recorded -> committed) over the ordered WriteHeader/Write/Flush call log of a recording ResponseWriter with injected write faults; small-scope exhaustive operation sequences + random programs spread over handler chains",
+        "All sequences of <= 4 operations over a 9-operation alphabet x 4 writer fault plans, plus random programs of 13 operation kinds over 1..4 handlers (before/after Next), with/without an OnError hook: exactly one WriteHeader, first, carrying the last positive status before the commit point; body = accepted bytes in order; Length() = their count; silent chains commit once at the end.",
+        "Trusted: the 60-line response model in harness/mon/c08.go incl. its expansion of helpers (http.Error, Redirect, Text, JSON, NoContent) into primitives. Forwarding of zero-length writes is not asserted.",
+        "DESIGN.md section 4 C08",
+    ),
+    "C09": (
+        "runtime monitoring: fault injection at handler boundaries (header-armed panics at every chain position / phase / OnError) with a trace-specification monitor for the recovery path and a twin-router comparison of all follow-up requests, incl. an overlapping (nested) pair on the pooled contexts",
+        "For each generated history: with an OnPanic hook the panic does not escape, the hook runs once with the same value, no handler is entered afterwards, and the writer log equals the C08 model over (ops before the panic, hook ops, end of request); without a hook the same value propagates; afterwards every request (incl. two in flight at once) behaves as on a freshly built identical router.",
+        "Trusted: C08 response model, C04 scope model, comparable panic values; PanicsHandler only checked for containment / single commit / health.",
+        "DESIGN.md section 4 C09",
+    ),
+    "C10": (
+        "runtime monitoring: twin-execution monitor over request histories with context-dirtying handlers; first-handler snapshot of the pooled context compared with the same request on a freshly built router; context reuse measured by pointer identity",
+        "For every request of every history (static, dynamic, 404, 405, aborted, erroring, panicking-with-hook, nested) the snapshot taken by the first handler (data keys, params, errors, abort state, status, length, writer/request identity) and the outcome equal those of the same request sent first to a fresh identical router; tens of thousands of observed context reuses after a dirtying predecessor per run.",
+        "Trusted: a fresh identical router as the specification of pristine; sequential histories (sync.Pool reuse is measured: zero reuse => inconclusive).",
+        "DESIGN.md section 4 C10",
+    ),
     "C12": (
         "runtime monitoring: reference scope-model monitor over generated registration programs with probe routes after every Group return; Route.Path()/Handlers() observed at registration and at the end, per-route request traces, negative probes without the prefix",
         "Every route (incl. Controller registrations and probe routes registered right after each Group return) must carry exactly the concatenated prefixes and exactly the middleware of its enclosing groups in effect at registration; reachable under the full path with exactly that chain and not under the bare path.",
